@@ -133,6 +133,18 @@ CLAIMED["C19"] = dict(
          "chars, 6 key orders (quick) / 25, spec lists of <= 3 (quick) / 4 entries. Outside: incomplete configs, booleans, "
          "non-str IP values, YAML text parsing.")
 
+CLAIMED["C10"] = dict(
+    level="model_checking", technique=E1 + "; function-hood as a finite SMT instance decided by z3 and cvc5", design="6/C10",
+    text="Type enforcement: for one class per (declared type, vendor-ness) plus the custom-logic classes (all classes in "
+         "thorough) the real constructor is run on every Python int, on bytes of each length 0..9 (Address 0..19) with symbolic "
+         "content and on every short str; CrossHair shows that it either raises or yields an instance whose data has the exact "
+         "width / enumeration membership / address family-width agreement and whose dump() is the reference encoding; Grouped "
+         "classes over every subset of their mandatory members. Function-hood of the (vendor, code) registry is one unsat SMT "
+         "query over the live rows. Dispatch (incl. classes defined after the first lookup), published identity vs the frozen "
+         "dictionary, docs/list-of-avps.md and definitions.py, and non-solver value kinds are table comparisons (stated as such).",
+    note="Trusted: CrossHair, z3, cvc5, the well-formedness predicate, ref/avp_dictionary.json. Outside: DiameterURI grammar "
+         "beyond the scheme, address families other than IPv4/IPv6, floats.")
+
 PENDING_REASON = "check not built yet in this session (planned in DESIGN.md section 6); no claim is made"
 NOT_APPLICABLE = {}
 
